@@ -37,6 +37,7 @@ class Walker:
 
     def __init__(self):
         self.inexact = False
+        self.dropped_atomic = False     # an atomic template none of whose channels is played, with a positive duration
 
     def ev(self, x, env):
         """-> (tag, q)   tag in int/time/float/inexact"""
@@ -78,7 +79,33 @@ class Walker:
             raise Undefined('non_integer')
         return int(v)
 
-    def den(self, t, env):
+    def kept(self, t, f):
+        """does any channel of this (atomic) template survive the channel mapping f (name -> name | None)?"""
+        k = t['t']
+        if k == 'const':
+            return any(f(c) is not None for c in t['v'])
+        if k in ('func', 'point'):
+            return any(f(c) is not None for c in t['ch'])
+        if k == 'table':
+            return any(f(c) is not None for c in t['chans'])
+        if k == 'map':
+            return self.kept(t['body'], compose_cm(f, t.get('cm')))
+        if k == 'multi':
+            return any(self.kept(c, f) for c in t['subs'])
+        if k == 'arith':
+            return self.kept(t['lhs'], f) or self.kept(t['rhs'], f)
+        return self.kept(t['body'], f)
+
+    def den(self, t, env, f=None, atomic=False):
+        """the denoted duration (channel mappings play no role in it); f = the channel mapping received from outside,
+        used only to record which atomic templates are not played at all (`dropped_atomic`) and which parallel parts
+        escape the code's duration comparison"""
+        f = f or (lambda c: c)
+        if not atomic and t['t'] in ('const', 'func', 'table', 'point', 'multi', 'arith'):
+            d = self.den(t, env, f, atomic=True)
+            if d > 0 and not self.kept(t, f):
+                self.dropped_atomic = True
+            return d
         k = t['t']
         if k in ('const', 'func'):
             d = self.q(t['d'], env)
@@ -95,14 +122,14 @@ class Walker:
                 lasts.append(vs[-1])
             return max(lasts)
         if k == 'seq':
-            return sum((self.den(c, env) for c in t['subs']), F(0))
+            return sum((self.den(c, env, f) for c in t['subs']), F(0))
         if k == 'rep':
             n = self.qint(t['count'], env)
             if n < 0:
                 raise Undefined('neg_count')
             if n == 0:
                 return F(0)
-            return n * self.den(t['body'], env)
+            return n * self.den(t['body'], env, f)
         if k == 'for':
             a = self.qint(t['start'], env)
             b = self.qint(t['stop'], env)
@@ -113,52 +140,73 @@ class Walker:
             for v in range(a, b, s):
                 env2 = dict(env)
                 env2[t['idx']] = ('int', F(v))
-                tot += self.den(t['body'], env2)
+                tot += self.den(t['body'], env2, f)
             return tot
         if k == 'map':
             env2 = dict(env)
             for name, e in t['m'].items():
                 tag, v = self.ev(e, env)
                 env2[name] = (tag, v)
-            return self.den(t['body'], env2)
+            return self.den(t['body'], env2, compose_cm(f, t.get('cm')), atomic)
         if k == 'multi':
-            ds = [self.den(c, env) for c in t['subs']]
+            ds = [self.den(c, env, f, True) for c in t['subs']]
+            played = [self.kept(c, f) for c in t['subs']]
             if t.get('declared') is not None:
                 ds = ds + [self.q(t['declared'], env)]
+                played = played + [True]
             if any(d != ds[0] for d in ds):
-                raise Undefined(unequal_class(ds))
+                raise Undefined(unequal_class(ds, played))
             return ds[0]
         if k == 'arith':
-            dl, dr = self.den(t['lhs'], env), self.den(t['rhs'], env)
+            dl, dr = self.den(t['lhs'], env, f, True), self.den(t['rhs'], env, f, True)
             if dl == dr or dr == 0:
                 return dl
             if dl == 0:
                 return dr
-            raise Undefined(unequal_class([dl, dr]))
+            raise Undefined(unequal_class([dl, dr], [self.kept(t['lhs'], f), self.kept(t['rhs'], f)]))
         if k in ('wrap', 'rev', 'constr', 'single'):
-            return self.den(t['body'], env)
+            return self.den(t['body'], env, f, atomic)
         raise ValueError(k)
 
 
-def unequal_class(ds):
+def compose_cm(f, cm):
+    """MappingPT.get_updated_channel_mapping: inner name -> what the outer mapping f makes of its image"""
+    if not cm:
+        return f
+    return lambda c: (None if cm[c] is None else f(cm[c])) if c in cm else f(c)
+
+
+def unequal_class(ds, played=None):
     """parallel parts of different duration: 'multi_unequal' when the implementation is known to let them through (a
-    part of duration 0 yields no waveform; isclose() passes differences below 1e-9 relative), else 'multi_unequal_far'"""
-    nz = [d for d in ds if d != 0]
+    part of duration 0 or a part all of whose channels are dropped yields no waveform; isclose() passes differences
+    below 1e-9 relative), else 'multi_unequal_far'"""
+    played = played or [True] * len(ds)
+    nz = [d for d, k in zip(ds, played) if d != 0 and k]
     if len(nz) < len(ds) or all(abs(a - nz[0]) <= F(1, 10 ** 9) * max(abs(a), abs(nz[0])) for a in nz):
         return 'multi_unequal'
     return 'multi_unequal_far'
 
 
+def root_tpl(case):
+    """the template with the root MappingPT / create_program channel mappings as explicit mapping nodes"""
+    t = case['tpl']
+    if case.get('rootmap'):
+        t = {'t': 'map', 'm': {}, 'cm': dict(case['rootmap']), 'body': t}
+    if case.get('cpmap'):
+        t = {'t': 'map', 'm': {}, 'cm': dict(case['cpmap']), 'body': t}
+    return t
+
+
 def spec(case):
-    """-> ('ok', Fraction, inexact) | ('undef', reason, inexact)"""
+    """-> ('ok', Fraction, inexact, dropped_atomic) | ('undef', reason, inexact)"""
     env = {}
     for name, p in case['params'].items():
         tag, tv, _ = param_value(p)
         env[name] = (tag, tv)
     w = Walker()
     try:
-        d = w.den(case['tpl'], env)
-        return ('ok', d, w.inexact)
+        d = w.den(root_tpl(case), env)
+        return ('ok', d, w.inexact, w.dropped_atomic)
     except Undefined as u:
         return ('undef', u.reason, w.inexact)
 
